@@ -709,20 +709,37 @@ Proof.
 Qed.
 
 (* ------------------------------------------------------------------ 14. RF pulses *)
-Theorem reject_pulse_sample_above_1 pre v post dur :
-  1 < abs2 v -> pulse_ok true 1 (pre ++ v :: post) dur = Reject ValueError.
+Definition given (rf alpha : option Q) : Prop := rf <> None \/ alpha <> None.
+Lemma given_ok rf alpha : given rf alpha -> is_none rf && is_none alpha = false.
+Proof. intros [H|H]; [destruct rf | destruct alpha]; try congruence; try reflexivity. apply andb_false_r. Qed.
+
+Theorem reject_pulse_sample_above_1 rf alpha pre v post dur :
+  given rf alpha -> 1 < abs2 v -> pulse_ok rf alpha 1 (pre ++ v :: post) dur = Reject ValueError.
 Proof.
-  intros H. unfold pulse_ok. cbn [negb Nat.ltb Nat.leb guard andv].
+  intros G H. unfold pulse_ok. rewrite (given_ok _ _ G). cbn [negb Nat.ltb Nat.leb guard andv].
   rewrite existsb_mid; [reflexivity | now apply Qltb_true].
 Qed.
-Theorem accept_pulse_within_unit_disc values d :
-  (forall v, In v values -> abs2 v <= 1) -> 0 <= d -> pulse_ok true 1 values (PScalar d) = Accept.
+Theorem reject_pulse_without_rf_and_alpha ndim values dur :
+  pulse_ok None None ndim values dur = Reject ValueError.
+Proof. reflexivity. Qed.
+Theorem accept_pulse_within_unit_disc rf alpha values d :
+  given rf alpha -> (forall v, In v values -> abs2 v <= 1) -> 0 <= d ->
+  pulse_ok rf alpha 1 values (PScalar d) = Accept.
 Proof.
-  intros H Hd. unfold pulse_ok. cbn [negb Nat.ltb Nat.leb guard andv].
+  intros G H Hd. unfold pulse_ok. rewrite (given_ok _ _ G). cbn [negb Nat.ltb Nat.leb guard andv].
   assert (existsb (fun v => Qltb 1 (abs2 v)) values = false) as ->.
   { destruct (existsb _ values) eqn:E; [|reflexivity].
     apply existsb_exists in E. destruct E as [v [Hin Hv]]. rewrite (Qltb_false _ _ (H v Hin)) in Hv. discriminate. }
   cbn [guard andv]. rewrite (Qltb_false _ _ Hd). reflexivity.
+Qed.
+(* boundary: a zero flip angle or a zero amplitude, with the other one not given, and zero duration *)
+Theorem accept_pulse_zero_alpha_or_rf values :
+  (forall v, In v values -> abs2 v <= 1) ->
+  pulse_ok None (Some 0) 1 values (PScalar 0) = Accept /\ pulse_ok (Some 0) None 1 values (PScalar 0) = Accept /\
+  pulse_ok (Some 0) (Some 0) 1 values (PScalar 0) = Accept.
+Proof.
+  intros H. repeat split; apply accept_pulse_within_unit_disc; try (apply Qle_refl); try exact H;
+    unfold given; (left; discriminate) || (right; discriminate).
 Qed.
 
 (* ------------------------------------------------------------------ allclose on complex entries *)
